@@ -30,11 +30,11 @@ POOL = fb.RESERVED + ["1j", "inf", "nan", "-1", "0", "0.5", "1e400", "x", "me", 
                       "keep", "flush", "rx", "tx", "a:b:c", ":x", "over", "under", "native", "", "#"]
 
 
-def outcome(text, limit):
-    """(class, function, detail) of building `text`:
+def outcome(text, limit, files=None, verbosity=0):
+    """(class, function, detail) of building `text` (with the files it loads, at a console verbosity):
     class = ok | failed | <exception class> | HANG;  function = where it was raised (innermost ioflo frame)"""
     try:
-        r = fb.build(text, limit=limit, acts=False)
+        r = fb.build(text, limit=limit, acts=False, files=files, verbosity=verbosity, name="main.flo" if files else "build.flo")
     except core.HarnessTimeout as ex:
         tb = traceback.extract_tb(ex.__traceback__)
         names = [f.name for f in tb if "ioflo" in f.filename]
@@ -376,7 +376,11 @@ class CHECK(core.Check):
             "with and without the `fields in` clause on either side, absolute and relative; (d) need scripts (25%): every need form "
             "(done with/without `aux`, any/all, `in frame [name]`, `in framer [name]`; status; update/change with `in frame "
             "[name]` and `by marker` in both orders; elapsed/recurred with/without `re`; boolean, direct, indirect with "
-            "tolerance; `not`) alone and in conjunctions of up to three at every position in go / let / aux-if lines. Non-trivial = a script that is rejected or does not build normally "
+            "tolerance; `not`) alone and in conjunctions of up to three at every position in go / let / aux-if lines. 30% of all "
+            "script cases are split over up to ~6 files by `load` commands (nested three deep), so that every kind of script "
+            "error also occurs inside a loaded file; some of these add a nested load of a missing file, a file that loads "
+            "itself, or two files loading each other. 25% of the script cases are built at console verbosity concise or "
+            "profuse (output discarded) so that the printing code of build() runs. Non-trivial = a script that is rejected or does not build normally "
             "(any outcome other than 'ok'), or a link structure with at least one link; distinct by text.")
     TRUSTED = ["correspondence (a): the scripts really exercise the loops the model describes (frames resolved in definition "
                "order; `under` sets the primary under; a clone has the moots of its original)",
@@ -492,8 +496,30 @@ class CHECK(core.Check):
                     prog.insert(rng.randrange(len(prog) + 1), list(rng.choice(prog)))
                 elif op == 5 and len(prog) > 1:
                     del prog[ci]
-            prog = [[t for t in c if t != ""] for c in prog]
-            yield {"kind": "script", "text": fb.canonical_text([c for c in prog if c])}
+            prog = [c for c in ([t for t in c if t != ""] for c in prog) if c]
+            case = {"kind": "script", "text": fb.canonical_text(prog)}
+            if rng.random() < 0.3 and prog:
+                # the same script split over files: whatever goes wrong now goes wrong inside a loaded file (depth 1-3)
+                files, main = fb.split_tree(rng, prog)
+                names = sorted(files)
+                k = rng.random()
+                if names and k < 0.15:        # a nested load of a file that does not exist
+                    f = files[rng.choice(names)]
+                    f.insert(rng.randrange(len(f) + 1), ["load", "missing.flo"])
+                elif names and k < 0.25:      # a file that loads itself (after its own commands, or at once)
+                    n = rng.choice(names)
+                    if rng.random() < 0.5:
+                        files[n] = []
+                    files[n].insert(rng.randrange(len(files[n]) + 1), ["load", n])
+                elif names and k < 0.3:       # two files loading each other
+                    a, b = rng.choice(names), rng.choice(names)
+                    files[a].append(["load", b])
+                    files[b].append(["load", a])
+                case = {"kind": "script", "text": fb.canonical_text(main),
+                        "files": {n: fb.canonical_text(p) for n, p in files.items()}}
+            if rng.random() < 0.25:
+                case["verbosity"] = rng.choice([2, 2, 4])    # the printing code of build() runs too (output discarded)
+            yield case
 
     def text_of(self, case):
         if case["kind"] == "overs":
@@ -509,7 +535,8 @@ class CHECK(core.Check):
         if key not in self._cache:
             if len(self._cache) > 50000:
                 self._cache.clear()
-            self._cache[key] = outcome(self.text_of(case), LIMIT_SCRIPT if case["kind"] == "script" else LIMIT_LOOP)
+            self._cache[key] = outcome(self.text_of(case), LIMIT_SCRIPT if case["kind"] == "script" else LIMIT_LOOP,
+                                       files=case.get("files"), verbosity=case.get("verbosity", 0))
         return self._cache[key]
 
     def requests(self, case):
@@ -575,6 +602,13 @@ class CHECK(core.Check):
     def shrink_candidates(self, case):
         if case["kind"] != "script":
             return
+        if case.get("verbosity"):
+            yield {k: v for k, v in case.items() if k != "verbosity"}
+        for n, t in sorted((case.get("files") or {}).items()):
+            fl = t.split("\n")
+            for i in range(len(fl)):
+                if fl[i]:
+                    yield dict(case, files=dict(case["files"], **{n: "\n".join(fl[:i] + fl[i + 1:])}))
         lines = case["text"].split("\n")
         for i in range(len(lines)):
             if lines[i]:
